@@ -118,6 +118,8 @@ struct Chan {
     wsegs: Vec<Vec<u8>>,
     /// payload bytes the harness drained from the far end
     drained: Vec<u8>,
+    /// `dup c d`: this entry is only a second descriptor (`near`) for the kernel object of channel `alias`
+    alias: Option<usize>,
     /// the user dropped the key of an operation on this channel: what that operation transferred is
     /// (legitimately) never reported, so the stream monitors cannot be exact here
     lossy: bool,
@@ -164,7 +166,7 @@ fn mk_chan(kind: &str, content: &[u8]) -> Chan {
         }
         _ => panic!("chan kind"),
     };
-    Chan { kind: k, near, far, fed: content.to_vec(), consumed: vec![], segments: vec![], wsegs: vec![], drained: vec![], lossy: false }
+    Chan { kind: k, near, far, fed: content.to_vec(), consumed: vec![], segments: vec![], wsegs: vec![], drained: vec![], alias: None, lossy: false }
 }
 
 // ---------------------------------------------------------------------------------------------
@@ -476,6 +478,11 @@ impl World {
         Ok(World { p, iour, fut, chans: BTreeMap::new(), ops: BTreeMap::new(), live: vec![], job_token: 0 })
     }
 
+    /// the channel whose kernel object (and stream bookkeeping) descriptor `c` refers to
+    fn root(&self, c: usize) -> usize {
+        self.chans[&c].alias.unwrap_or(c)
+    }
+
     fn near(&self, c: usize) -> RawFd {
         self.chans[&c].near.as_raw_fd()
     }
@@ -620,7 +627,12 @@ impl World {
             let (sig, rest) = c.split_once(' ').unwrap_or((c.as_str(), ""));
             ex.fail(sig, format!("op {id}: {rest}"));
         }
-        let kind = self.ops[&id].kind.clone();
+        // the stream bookkeeping lives with the kernel object, not with the (possibly dup'd) descriptor
+        let kind = match self.ops[&id].kind.clone() {
+            Kind::Read(c, n) => Kind::Read(self.root(c), n),
+            Kind::Recv(c, n) => Kind::Recv(self.root(c), n),
+            k => k,
+        };
         match (&kind, &d.res) {
             (Kind::Read(c, _) | Kind::Recv(c, _) | Kind::RMulti(c), Ok(_)) => {
                 self.chans.get_mut(c).unwrap().segments.push(d.data.clone().unwrap_or_default());
@@ -884,7 +896,7 @@ impl World {
         }
         self.drain_all();
         for (c, ch) in self.chans.iter_mut() {
-            if matches!(ch.kind, ChanKind::File) || ch.lossy {
+            if matches!(ch.kind, ChanKind::File) || ch.lossy || ch.alias.is_some() {
                 continue;
             }
             // payload bytes are unique per case, so the pieces can be put back into stream order
@@ -976,6 +988,36 @@ fn exec_inner(case: &Case) -> Exec {
                     }
                     ["file", c, h] => {
                         wd.chans.insert(c.parse().unwrap(), mk_chan("file", &unhex(h)));
+                        "ok".into()
+                    }
+                    ["dup", c, c2] => {
+                        // a second descriptor for the same socket / pipe end (dup, try_clone, inherited fd)
+                        let c: usize = c.parse().unwrap();
+                        let root = wd.root(c);
+                        let fd = unsafe { libc::fcntl(wd.near(c), libc::F_DUPFD_CLOEXEC, 0) };
+                        assert!(fd >= 0, "dup");
+                        let kind = match wd.chans[&root].kind {
+                            ChanKind::Sock => ChanKind::Sock,
+                            ChanKind::RPipe => ChanKind::RPipe,
+                            ChanKind::WPipe => ChanKind::WPipe,
+                            ChanKind::File => ChanKind::File,
+                        };
+                        wd.chans.insert(
+                            c2.parse().unwrap(),
+                            Chan {
+                                kind,
+                                near: unsafe { OwnedFd::from_raw_fd(fd) },
+                                far: None,
+                                fed: vec![],
+                                consumed: vec![],
+                                segments: vec![],
+                                wsegs: vec![],
+                                drained: vec![],
+                                alias: Some(root),
+                                lossy: false,
+                            },
+                        );
+                        ex.tag("dup");
                         "ok".into()
                     }
                     ["feed", c, h] => {
@@ -1143,6 +1185,7 @@ fn exec_inner(case: &Case) -> Exec {
                                         _ => vec![],
                                     };
                                     for c in chans {
+                                        let c = wd.root(c);
                                         wd.chans.get_mut(&c).unwrap().lossy = true;
                                     }
                                     "none".to_string()
@@ -1599,6 +1642,57 @@ fn gen_idle_burst(rng: &mut Rng, idx: usize) -> Case {
     Case { name: format!("idle{idx}"), lines }
 }
 
+/// "stolen readiness": two or three descriptors of ONE socket / pipe (dup, try_clone), receives pending on
+/// each, bytes arriving one at a time: every registration fires, one receive gets the byte, the others see
+/// EAGAIN and must be re-queued *not ready* and re-armed so that the next byte reaches them
+fn gen_stolen(rng: &mut Rng, idx: usize) -> Case {
+    let fut = rng.chance(1, 5);
+    let mut lines = vec![format!("cfg poll 1024{}", if fut { " fut" } else { "" })];
+    let sock = rng.chance(2, 3);
+    lines.push(format!("{} 0", if sock { "sock" } else { "rpipe" }));
+    let nfd = rng.range(2, 3) as usize;
+    for d in 1..nfd {
+        lines.push(format!("dup 0 {d}"));
+    }
+    let p = if fut { "settle" } else { "poll" };
+    let nops = rng.range(2, 4) as usize;
+    let mut id = 0;
+    // some data may be there already
+    if rng.chance(1, 4) {
+        lines.push("feed 0 7f".into());
+    }
+    let mut seq = 0u8;
+    for i in 0..nops {
+        let fd = if i < nfd { i } else { rng.below(nfd as u64) as usize };
+        let op = if sock && rng.chance(2, 3) { "recv" } else { "read" };
+        lines.push(format!("push {id} {op} {fd} {}", rng.range(1, 2)));
+        if rng.chance(1, 2) {
+            lines.push(format!("waker {id}"));
+        }
+        id += 1;
+        if rng.chance(1, 4) {
+            lines.push(p.into());
+        }
+    }
+    for _ in 0..nops + 2 {
+        seq += 1;
+        let n = if rng.chance(1, 5) { 2 } else { 1 };
+        let bytes: Vec<u8> = (0..n).map(|k| seq * 2 + k).collect();
+        lines.push(format!("feed 0 {}", hex(&bytes)));
+        lines.push(p.into());
+        if rng.chance(1, 3) {
+            lines.push(p.into());
+        }
+        if rng.chance(1, 5) && id < 6 {
+            let fd = rng.below(nfd as u64) as usize;
+            lines.push(format!("push {id} read {fd} 1"));
+            id += 1;
+        }
+    }
+    lines.push("settle".into());
+    Case { name: format!("stolen{idx}"), lines }
+}
+
 /// the multi-descriptor operation (Splice) with the two ends becoming ready in either order
 fn gen_splice(rng: &mut Rng, idx: usize, order: u64) -> Case {
     let mut lines = vec!["cfg poll 1024".to_string(), "rpipe 0".into(), "wpipe 1".into(), "fill 1".into()];
@@ -1810,6 +1904,9 @@ fn generate(tier: &str, rng: &mut Rng) -> Vec<Case> {
     }
     for i in 0..80 * scale {
         cases.push(gen_idle_burst(&mut rng.fork(), i));
+    }
+    for i in 0..120 * scale {
+        cases.push(gen_stolen(&mut rng.fork(), i));
     }
     for i in 0..60 * scale {
         cases.push(gen_jobs(&mut rng.fork(), i));
